@@ -313,3 +313,52 @@ Definition unwrap_ok (s : string) (t u : N) (r : option (string * N * string)) :
     | None => false
     end
   else true.
+
+(* ---- several inbound messages in flight at once (comm/p2p/libp2p.go ProcessMessagesFromStream:
+   for every decoded message one goroutine per subscriber sends a pointer to THAT message's own
+   struct; the table does not change while the messages are in flight).  Whatever the relative
+   timing of the decoder(s) and the receivers, a channel ends up having received, as a multiset,
+   one copy of every message for every subscription it holds on the message's (session, type).
+   A message is (session, type, payload, remote peer of the stream it came in on); what a channel
+   received has the same shape (From of the received struct mapped back to the peer's number). ---- *)
+
+Definition msg := (string * N * string * N)%type.
+
+Definition msg_eqb (a b : msg) : bool :=
+  let '(s, t, p, f) := a in
+  let '(s', t', p', f') := b in
+  String.eqb s s' && N.eqb t t' && String.eqb p p' && N.eqb f f'.
+
+Definition copies (c : N) (l : list N) : nat := List.length (filter (N.eqb c) l).
+
+Section Fan.
+  Variable subs : string -> N -> list N.   (* subscribers of the table / of the specification *)
+  Definition recv_of (msgs : list msg) (c : N) : list msg :=
+    flat_map (fun m => repeat m (copies c (subs (fst (fst (fst m))) (snd (fst (fst m)))))) msgs.
+End Fan.
+
+Definition recv_c (tbl : list entry) : list msg -> N -> list msg :=
+  recv_of (fun s t => subscribers s t tbl).
+Definition recv_a (live : list sub) : list msg -> N -> list msg :=
+  recv_of (fun s t => spec_subscribers s t live).
+
+(* multisets of received messages: order of receipt is not specified *)
+Definition count_m (x : msg) (l : list msg) : nat := List.length (filter (msg_eqb x) l).
+
+Definition mset_eqb (a b : list msg) : bool :=
+  forallb (fun x => Nat.eqb (count_m x a) (count_m x b)) (a ++ b).
+
+Fixpoint all2 {A B : Type} (f : A -> B -> bool) (la : list A) (lb : list B) : bool :=
+  match la, lb with
+  | [], [] => true
+  | a :: la', b :: lb' => f a b && all2 f la' lb'
+  | _, _ => false
+  end.
+
+(* The judge for a burst: for every channel of [chans] (all channels of the history), what it
+   received is, as a multiset, what the specification's live subscriptions entitle it to. *)
+Definition fan_ok (expect : N -> list msg) (chans : list N) (impl : list (list msg)) : bool :=
+  all2 (fun c got => mset_eqb (expect c) got) chans impl.
+
+Definition judge_fan (ops : list op) (msgs : list msg) (chans : list N) (impl : list (list msg)) : bool :=
+  fan_ok (recv_a (fst (run_a a_init ops)) msgs) chans impl.
